@@ -227,7 +227,7 @@ pub fn run(ctx: &mut Ctx) {
     let max_n = if thorough { 5 } else { 4 };
     for n in 1..=max_n {
         let dags = all_dags(n);
-        ctx.space(&format!("strict/builder/D{n}/emptied-kinds"), &format!("{} labelled DAGs x 2^{n} subsets x (all kinds | no genes | no OMIM | no ORPHA | every record on every term)", dags.len()));
+        ctx.space(&format!("strict/builder/D{n}/emptied-kinds"), &format!("{} labelled DAGs x 2^{n} subsets x (all kinds | no genes | no OMIM | no ORPHA | every record on every term); Builder, and (n >= 3) the decoder", dags.len()));
         for d in &dags {
             for s in 0..(1u32 << n) {
                 if !ctx.take() {
@@ -268,6 +268,25 @@ pub fn run(ctx: &mut Ctx) {
                             let case = || json!({"facts": f.to_json(), "variant": what, "rust": f.to_rust(false)});
                             if let Some(obs) = drive::check_against_model(ctx, &ont, &r, Mode::Minimal, "builder", &case) {
                                 strict(ctx, &obs, &r, &case);
+                            }
+                        }
+                    }
+                    // the same variant through the decoder (needs both root terms: n >= 3 with this id pool)
+                    if ids.contains(&1) && ids.contains(&118) {
+                        let mut g = f.clone();
+                        g.version = (2024, 2, 29);
+                        let rg = RefOnt::derive(&g);
+                        ctx.transitions(g.n_steps());
+                        let case = || json!({"facts": g.to_json(), "variant": what});
+                        match drive::from_bytes(&crate::encode::encode(&g, &crate::encode::EncOpts::v(3))) {
+                            Ok(Ok(ont)) => {
+                                if let Some(obs) = drive::check_against_model(ctx, &ont, &rg, Mode::Defaults, "binary v3", &case) {
+                                    strict(ctx, &obs, &rg, &case);
+                                }
+                            }
+                            other => {
+                                ctx.exec();
+                                ctx.violation("Ontology::from_bytes", "[binary v3] rejects or panics on a file laid out as documented", json!({"case": case(), "observed": format!("{:?}", other.map(|r| r.map(|_| ())))}));
                             }
                         }
                     }
@@ -328,6 +347,122 @@ pub fn run(ctx: &mut Ctx) {
                 other => ctx.violation("Ontology::from_bytes", "[binary v3] rejects a file laid out as documented", json!({"case": case(), "observed": format!("{:?}", other.map(|r| r.map(|_| ())))})),
             }
             ctx.sample(|| json!({"power_of_two": p, "records": {"gene": layouts[0].1 + 6, "omim": layouts[1].1 + 6, "orpha": layouts[2].1 + 6}}));
+        }
+    }
+    // 4. EVERY count once: a staircase under HP:118 - leaf i carries the records i..N, so the leaves have
+    // n = N, N-1, ..., 1 (genes N = 1100, OMIM N = 600, ORPHA N = 300; thorough 2100 / 1100 / 600)
+    {
+        let sizes: [(crate::model::Kind, u32); 3] = if thorough { [(Kind::Gene, 2100), (Kind::Omim, 1100), (Kind::Orpha, 600)] } else { [(Kind::Gene, 1100), (Kind::Omim, 600), (Kind::Orpha, 300)] };
+        ctx.space("every-count-staircase", &format!("leaves below HP:118, leaf i annotated with the records i..N of a kind: every n in 1..=N occurs for N = {:?}; Builder; every term's information content against -ln(n/N)", sizes.iter().map(|s| s.1).collect::<Vec<_>>()));
+        if ctx.take() {
+            ctx.state();
+            ctx.nontrivial();
+            let mut f = Facts::default();
+            f.terms.push(Facts::term(1, "All"));
+            f.terms.push(Facts::term(118, "Phenotypic abnormality"));
+            f.edges.push((118, 1));
+            let nmax = sizes.iter().map(|s| s.1).max().unwrap();
+            for i in 1..=nmax {
+                f.terms.push(Facts::term(10_000 + i, "leaf"));
+                f.edges.push((10_000 + i, 118));
+            }
+            for (kind, total) in sizes {
+                for rec in 1..=total {
+                    for leaf in 1..=rec {
+                        f.anns.push(Facts::ann(kind, rec, "R", Some(10_000 + leaf)));
+                    }
+                }
+            }
+            ctx.transitions(f.n_steps());
+            ctx.exec();
+            ctx.validated();
+            // direct oracle (the generic model would hold ~10^6 set entries): n of leaf i is N - i + 1 (0 beyond N)
+            match drive::build(&f, Mode::Minimal) {
+                Err(e) => ctx.violation("Builder", "[builder] construction fails on valid facts", json!({"layout": "every-count staircase", "observed": e})),
+                Ok(ont) => {
+                    let res = guard(|| -> Option<(String, String)> {
+                        for (kind, total) in sizes {
+                            for i in 1..=nmax {
+                                let t = ont.hpo(10_000 + i).unwrap();
+                                let n = if i <= total { (total - i + 1) as usize } else { 0 };
+                                let want = ic_value(total as usize, n);
+                                let got = match kind {
+                                    Kind::Gene => t.information_content().gene(),
+                                    Kind::Omim => t.information_content().omim_disease(),
+                                    Kind::Orpha => t.information_content().orpha_disease(),
+                                };
+                                if !(got.is_finite() && got >= 0.0 && close32(got, want)) {
+                                    return Some((format!("InformationContent::{}", kind_fn(kind)), format!("leaf {i}: n = {n}, N = {total}: observed {got} expected {want}")));
+                                }
+                            }
+                            for top in [118u32, 1] {
+                                let t = ont.hpo(top).unwrap();
+                                let got = match kind {
+                                    Kind::Gene => t.information_content().gene(),
+                                    Kind::Omim => t.information_content().omim_disease(),
+                                    Kind::Orpha => t.information_content().orpha_disease(),
+                                };
+                                if got != 0.0 {
+                                    return Some((format!("InformationContent::{}", kind_fn(kind)), format!("HP:{top} is linked to all {total} records: observed {got} expected 0")));
+                                }
+                            }
+                        }
+                        None
+                    });
+                    match res {
+                        Ok(None) => {}
+                        Ok(Some((site, det))) => ctx.violation(&site, "[every-count staircase] information content is not -ln(n/N)", json!({"layout": "leaf i carries records i..N", "difference": det})),
+                        Err(p) => ctx.violation("HpoTerm::information_content", "[every-count staircase] panics", json!({"observed": p})),
+                    }
+                }
+            }
+            ctx.sample(|| json!({"N per kind": sizes.iter().map(|s| s.1).collect::<Vec<_>>()}));
+        }
+    }
+    // 5. the setters on a sparse grid up to the u16 border: N, n in {2^k - 1, 2^k, 2^k + 1 : k <= 16} and {1, N-1, N}
+    {
+        ctx.space("setters/sparse-grid", "InformationContent::set_*(N, n) for N, n in {2^k-1, 2^k, 2^k+1 : k <= 16} with n <= N <= 65535, plus n in {1, N-1, N}: exactly -ln(n/N); one case per N");
+        let mut grid: Vec<usize> = vec![];
+        for k in 0..=16u32 {
+            for v in [(1usize << k).wrapping_sub(1), 1usize << k, (1usize << k) + 1] {
+                if v >= 1 && v <= 65_535 {
+                    grid.push(v);
+                }
+            }
+        }
+        for v in [1000usize, 5000, 10_000, 40_000, 65_534] {
+            grid.push(v);
+        }
+        grid.sort_unstable();
+        grid.dedup();
+        for &total in &grid {
+            if !ctx.take() {
+                continue;
+            }
+            ctx.state();
+            let mut ns: Vec<usize> = grid.iter().copied().filter(|n| *n <= total).collect();
+            ns.extend([1, total.saturating_sub(1).max(1), total]);
+            ns.sort_unstable();
+            ns.dedup();
+            for n in ns {
+                ctx.exec();
+                ctx.validated();
+                ctx.transitions(3);
+                if n < total {
+                    ctx.nontrivial();
+                }
+                let got = guard(|| {
+                    let mut ic = InformationContent::default();
+                    let r = ic.set_gene(total, n).and_then(|_| ic.set_omim_disease(total, n)).and_then(|_| ic.set_orpha_disease(total, n)).map_err(|e| e.to_string());
+                    (r, [ic.gene(), ic.omim_disease(), ic.orpha_disease()])
+                });
+                let want = ic_value(total, n);
+                match got {
+                    Ok((Ok(()), vals)) if vals.iter().all(|v| close32(*v, want) && *v >= 0.0) => {}
+                    other => ctx.violation("InformationContent::set_*", "value is not -ln(n/N)", json!({"N": total, "n": n, "observed": format!("{other:?}"), "expected": want})),
+                }
+            }
+            ctx.sample(|| json!({"N": total}));
         }
     }
     lattice(ctx, if thorough { 4096 } else { 1024 });
